@@ -1240,12 +1240,24 @@ func checkWorkerCountBounded(c *Ctx, rule string) {
 		}
 		ord := 0
 		eachInstr(fn, func(in ssa.Instruction) {
+			var arg ssa.Value
+			calleeNm := ""
+			if mc, isMC := in.(*ssa.MakeChan); isMC {
+				// the pool constructor written out: make(resChanPool, concurrency)
+				if _, isConst := mc.Size.(*ssa.Const); isConst {
+					return
+				}
+				arg, calleeNm = mc.Size, "make(chan)"
+			}
 			call, ok := in.(*ssa.Call)
-			if !ok {
+			if !ok && arg == nil {
 				return
 			}
-			var arg ssa.Value
+			if ok {
+				calleeNm = calleeName(&call.Call)
+			}
 			switch {
+			case arg != nil:
 			case calleeName(&call.Call) == "newResChanPool" || calleeName(&call.Call) == "newBufPool":
 				arg = call.Call.Args[0]
 			case isWGCall(&call.Call, "Add"):
@@ -1258,7 +1270,7 @@ func checkWorkerCountBounded(c *Ctx, rule string) {
 			}
 			n++
 			ord++
-			key := fmt.Sprintf("%s: worker count at %s #%d", name, calleeName(&call.Call), ord)
+			key := fmt.Sprintf("%s: worker count at %s #%d", name, calleeNm, ord)
 			// a count converted from a wider or unsigned computation is bounded *before* the conversion:
 			// 1 <= x <= maxConcurrentRequests there implies that the conversion keeps the value
 			if cv, ok := arg.(*ssa.Convert); ok {
